@@ -10,7 +10,7 @@
 (* re-encodes to the same bytes, is on the curve and, where the type         *)
 (* promises it, in the prime-order subgroup; the unchecked decoder accepts   *)
 (* whatever the checked one accepts.                                        *)
-EXTENDS Curve, Json, IOUtils, Sequences, TLC
+EXTENDS Tower, Json, IOUtils, Sequences, TLC
 
 Rec == ndJsonDeserialize(IOEnv.TRACE)
 VARIABLE l
@@ -19,7 +19,9 @@ Has(e, f) == f \in DOMAIN e
 
 P(j) == [id |-> j.id, x |-> j.x, y |-> j.y]
 \* decoders of these curve types promise the prime-order subgroup
-PromisesSubgroup(curve) == curve \in {"bls12_381_g1", "secp256k1", "jubjub_subgroup"}
+PromisesSubgroup(curve) == curve \in {"bls12_381_g1", "bls12_381_g2", "secp256k1", "jubjub_subgroup"}
+\* the twists over Fp2 (coordinates are pairs) use the group law of Tower.tla
+IsG2(cn) == cn \in {"bls12_381_g2", "bn256_g2"}
 
 Expected(c, e) ==
   LET PA == P(e.ins[1])
@@ -32,7 +34,47 @@ Expected(c, e) ==
        [] e.op = "mul" -> PMul(c, e.scalars[1], PA)
        [] e.op \in {"affine_roundtrip", "batch_normalize"} -> PA
 
+Expected2(c, e) ==
+  LET PA == P(e.ins[1])
+      PB == IF Len(e.ins) >= 2 THEN P(e.ins[2]) ELSE Inf2
+  IN CASE e.op = "add" -> Add2(c, PA, PB)
+       [] e.op = "sub" -> Sub2(c, PA, PB)
+       [] e.op = "sum3" -> Add2(c, Add2(c, PA, PB), PA)
+       [] e.op = "double" -> Dbl2(c, PA)
+       [] e.op = "neg" -> Neg2(c, PA)
+       [] e.op = "mul" -> Mul2(c, e.scalars[1], PA)
+       [] e.op \in {"affine_roundtrip", "batch_normalize"} -> PA
+
+G2OK(e) ==
+  LET c == G2Of(e.curve)  m == c.T.m IN
+  /\ e.status = "ok"
+  /\ \A i \in 1..Len(e.ins) : OnCurve2(c, P(e.ins[i]))
+  /\ CASE e.op \in {"add", "sub", "sum3", "double", "neg", "mul", "affine_roundtrip", "batch_normalize"} ->
+            P(e.out) = Expected2(c, e)
+       [] e.op = "eq" -> e.out = (P(e.ins[1]) = P(e.ins[2]))
+       [] e.op = "is_identity" -> e.out = P(e.ins[1]).id
+       \* the published generator: a point of the curve, of order r, not the identity
+       [] e.op = "g2_constants" -> LET G == P(e.out.generator) IN ~G.id /\ InSubgroup2(c, G)
+       [] e.op = "jacobian" ->
+            LET A == P(e.ins[1])  Z2 == QSqr(e.out.Z, m) IN
+            IF A.id THEN e.out.Z = QZero
+            ELSE /\ e.out.Z # QZero
+                 /\ QMul(A.x, Z2, m) = e.out.X
+                 /\ QMul(A.y, QMul(Z2, e.out.Z, m), m) = e.out.Y
+       [] e.op \in {"new_jacobian_roundtrip", "new_jacobian_scaled"} ->
+            (P(e.ins[1]).id /\ e.op = "new_jacobian_scaled") \/ (e.out.some = TRUE /\ P(e.out.point) = P(e.ins[1]))
+       [] e.op = "codec_roundtrip" -> Has(e.out, "decoded") /\ P(e.out.decoded) = P(e.ins[1]) /\ e.out.same = TRUE
+       [] e.op = "codec_affine_same_bytes" -> e.out.same = TRUE
+       [] e.op = "codec_corrupt" ->
+            e.out.accepted =>
+              /\ e.out.reencodes_same = TRUE
+              /\ OnCurve2(c, P(e.out.decoded))
+              /\ P(e.out.decoded) # P(e.ins[1])
+              /\ PromisesSubgroup(e.curve) => InSubgroup2(c, P(e.out.decoded))
+              /\ Has(e.out, "unchecked_accepted") => e.out.unchecked_accepted = TRUE
+
 GOK(e) ==
+  IF IsG2(e.curve) THEN G2OK(e) ELSE
   LET c == CurveOf(e.curve) IN
   /\ e.status = "ok"
   /\ \A i \in 1..Len(e.ins) : OnCurve(c, P(e.ins[i]))
